@@ -1,6 +1,6 @@
 (* C05 property theorems (model: C05/Dec.v over the shared ABI spec C06/Abi.v). *)
 From Coq Require Import ZArith List Bool Lia.
-From Verif Require Import C06.Abi C06.Roundtrip C06.ZeroPad C05.Dec C05.DecProofs C05.ReadsInside C05.DecImpl C05.DecImplProofs.
+From Verif Require Import C06.Abi C06.AbiLemmas C06.Roundtrip C06.ZeroPad C05.Dec C05.DecProofs C05.ReadsInside C05.DecImpl C05.DecImplProofs.
 Import ListNotations.
 Open Scope Z_scope.
 
@@ -95,6 +95,25 @@ Proof.
           (impl_refines_model Venom M stale t p), (impl_refines_model Venom M' stale' t p); auto.
 Qed.
 Print Assumptions dec_reads_inside_lv.
+
+(* ---- constructor arguments: appended to the init code, base = |init code| (CODESIZE check + CODECOPY reads) ---- *)
+Theorem ctor_sound : forall targs initcode args v,
+  wf_ty targs = true -> bytes_ok (initcode ++ args) -> accept_ctor targs initcode args = Some v ->
+  in_type targs v = true /\ dec_follow targs (initcode ++ args) (zlen initcode) = Some v.
+Proof.
+  intros t ic args v Hwf Hb H. split. exact (dec_sound_at (zlen ic) t (ic ++ args) v Hwf Hb H).
+  unfold accept_ctor, accept_at in H. destruct (zlen (ic ++ args) <? zlen ic + static_size t); [discriminate | exact H].
+Qed.
+Theorem ctor_complete : forall targs v initcode,
+  wf_ty targs = true -> in_type targs v = true -> zlen initcode + zlen (enc targs v) < 2 ^ 256 ->
+  accept_ctor targs initcode (enc targs v) = Some v.
+Proof. intros. unfold accept_ctor. now apply dec_complete_at. Qed.
+(* truncated constructor arguments (static part not fully present) are rejected *)
+Theorem ctor_truncated_rejected : forall targs initcode args,
+  zlen args < static_size targs -> accept_ctor targs initcode args = None.
+Proof. intros. unfold accept_ctor. apply truncated_rejected_at. rewrite AbiLemmas.zlen_app. lia. Qed.
+Print Assumptions ctor_sound.
+Print Assumptions ctor_complete.
 
 (* non-vacuity *)
 Definition TA := TTuple [TDArr (TBytes 3) 2; TInt 8].
